@@ -282,7 +282,7 @@ where
         rep.violation = Some(v);
         return rep;
     }
-    if pd.len() > crate::c01::REF_MAX_CROSSINGS { return rep; }
+    if pd.len() > case["ref_max"].as_u64().unwrap_or(crate::c01::REF_MAX_CROSSINGS as u64) as usize { return rep; }
     // specialisation: evaluate at integer points and compare with the definition at those points
     let points: Vec<(i64, i64)> = case["points"].as_array().unwrap().iter().map(|p| (p[0].as_i64().unwrap(), p[1].as_i64().unwrap())).collect();
     for (h0, t0) in points {
@@ -327,7 +327,7 @@ impl Check for C05 {
         let formal_t = ring.contains('T');
         let reduced = !formal_t && t == 0 && !pd.is_empty() && rng.chance(1, 3);
         let pts: Vec<Value> = (0..3).map(|_| { let (a, b) = crate::c01::draw_ht(rng); json!([a, b]) }).collect();
-        json!({ "name": name, "pd": pd_to_json(&pd), "ring": ring, "h": h, "t": t, "reduced": reduced, "points": pts })
+        json!({ "name": name, "pd": pd_to_json(&pd), "ring": ring, "h": h, "t": t, "reduced": reduced, "points": pts, "ref_max": if tier == "quick" { crate::c01::REF_MAX_CROSSINGS } else { crate::c01::REF_MAX_CROSSINGS + 1 } })
     }
     fn run_case(&self, case: &Value, ex: &mut Executor) -> RunReport {
         match case["ring"].as_str().unwrap() {
